@@ -9,7 +9,8 @@ open Bee2V.C12 Bee2V.Proto
 /-- primality oracle of the driver: the model's Miller–Rabin with the first 16 primes as bases
     (stands for priIsPrime with its random bases; deterministic below 3.3·10^24) -/
 def drvIsPrime (n : Nat) : Bool :=
-  priRMTest n 16 ([2, 3, 5, 7, 11, 13, 17, 19, 23, 29, 31, 37, 41, 43, 47, 53].filter (fun b => b + 1 < n))
+  let tape := [2, 3, 5, 7, 11, 13, 17, 19, 23, 29, 31, 37, 41, 43, 47, 53].filter (fun b => b + 1 < n)
+  priRMTest n tape.length tape
 
 def beltHash (bs : List UInt8) : List UInt8 :=
   match (Bee2V.C01.hashHL Bee2V.C01.beltCipher bs).2 with
